@@ -2,6 +2,7 @@ import Driver.ArenaDrv
 import Driver.RustDrv
 import Driver.RawOps
 import Driver.PyDrv
+import Driver.CDrv
 /-
   Line-protocol driver.  stdin: one operation per line, first word selects the
   machine (`A` arena, `R` Rust map, `P` Python map, `C` C extension);
@@ -17,17 +18,19 @@ structure St where
   arena : Option AState := some Arena.empty
   rust : RSt := {}
   py : PSt := {}
+  c : CSt := {}
 
 def step (st : St) (line : String) : St × String :=
   match words line with
   | [] => (st, "")
-  | "case" :: rest => ({ st with arena := some Arena.empty, rust := {}, py := {} }, "case " ++ " ".intercalate rest)
+  | "case" :: rest => ({ st with arena := some Arena.empty, rust := {}, py := {}, c := {} }, "case " ++ " ".intercalate rest)
   | ["cfg", "arena-limit", n] =>
     match n.toNat? with
     | some n => ({ st with arenaLimit := n }, "ok")
     | none => (st, "bad-op")
   | "cfg" :: _ => (st, "ok")
   | "P" :: ws => let r := pyStep st.py ws; ({ st with py := r.1 }, r.2)
+  | "C" :: ws => let r := cStep st.c ws; ({ st with c := r.1 }, r.2)
   | "R" :: ws => let r := rustStep st.rust ws; ({ st with rust := r.1 }, r.2)
   | "X" :: ws =>
     if st.rust.dead then (st, "dead") else
